@@ -220,6 +220,9 @@ func derivation(src string, full bool) (string, error) {
 	return clean(b.String()), perr
 }
 
+// inProcessRuns is the number of complete in-process generations that are compared (more for the fixed specifications)
+var inProcessRuns = 2
+
 func checkSpec(src string, withProcess bool) (first outcome, err error) {
 	// invocations 0-3: grammar, definitions and levels only, back to back; 4 and 5: with automaton and table
 	// (a derivation that ends in diagnostics is cheap and is repeated 12 times: a map with few entries is iterated
@@ -251,7 +254,7 @@ func checkSpec(src string, withProcess bool) (first outcome, err error) {
 			return first, fmt.Errorf("what is derived from the same input differs between two in-process invocations:\n--- invocation 0:\n%s\n--- invocation %d:\n%s\nspecification:\n%s", d0, i, d, src)
 		}
 	}
-	const k = 2
+	k := inProcessRuns
 	for i := 0; i < k; i++ {
 		o, err := inProcess(src, i == 0)
 		if err != nil {
@@ -495,6 +498,16 @@ func TestFixedSpecs(t *testing.T) {
 		"grammar g;\nAA = $NOPE\nBB = $NADA\nCC = $NIX\nstart = AA BB CC DD EE FF;\n",
 	}
 	specs = append(specs, manyDiagnostics()...)
+	specs = append(specs,
+		// unknown predefined names close to two of the predefined ones
+		"grammar g;\nAA = $NL\nBB = $OP\nCC = $X\nDD = $WD\nEE = $IS\nFF = $IB\nGG = $STRIN\nstart = AA BB CC DD EE FF GG;\n",
+		// named string tokens and literals of every length from one to six (an order by length, name or text must be total)
+		"grammar g;\nKW = \"begin\"\nSEP = \";\"\nstart = KW SEP \"end\" | \"x\";\n",
+		"grammar g;\nTA = \"a\"\nTBB = \"bb\"\nTCCC = \"ccc\"\nU = \"dddd\"\nVV = \"eeeee\"\nWWWWWW = \"f\"\nID = /[g-z]+/\nstart = { TA | TBB | TCCC | U | VV | WWWWWW | ID | \"g\" | \"hh\" | \"iii\" | \"jjjj\" | \"kkkkk\" | \"llllll\" };\n",
+		"grammar g;\nLONGNAME = \"+\"\nS = \"minus\"\nMID = \"**\"\nstart = start LONGNAME start | start S start | start MID start | start \"/\" start | start \"mod\" start | \"n\";\n",
+	)
+	inProcessRuns = 6
+	defer func() { inProcessRuns = 2 }()
 	for _, s := range specs {
 		o, err := checkSpec(s, true)
 		rec.Case(s, true, "fixed", "status_"+o.status)
